@@ -10,7 +10,7 @@ LEVEL = "exploration"
 RULE = ("inputs (<= 4 kB of UTF-8) come from (a) a generator DERIVED AT RUN TIME from the working tree's grammar.pest (every "
         "production, types ignored, identifiers biased toward names already used so that many inputs pass name resolution), (b) "
         "token-level mutation (delete / insert / duplicate / swap / replace by a grammar terminal, 1-4 edits) of the example "
-        "corpus and of well-typed generated programs, (c) near-miss TYPE PAIRS: a random type T (primitives, open and fixed-shape lists, maps, optionals, function types, classes, aliases; depth <= 3), a type one structural edit away from it, and a value of the second supplied where the first is wanted (declaration, argument, re-assignment, return, `or` fallback, field, element, map value, comparison, index), (d) an enumerated import matrix (form x target file x imported names x context, compiled next to helper modules), (e) the COMPLETE single-edit neighbourhood of three hand-written well-typed programs that between them use every construct (values and operators; classes, closures and recursion; imports, exports and built-in methods): each token replaced by each of 70 words, each of 23 snippets inserted at each token boundary, each token deleted; 90 000 inputs, all of them in both tiers, (f) a composition matrix: 31 outer expression forms (calls of the function being defined among them) x 38 inner forms (nine of them diagnostics in their own right, four typed through an alias) x 8 statement forms x 9 places (module, function, function with a callback parameter, closure, method, constructor, closure in a method, if block, loop body), (g) 16 control / declaration statements (break, continue, return, import, class, type, export, modify, const, ?=, uses of self ...) inside every stack of up to three enclosing constructs out of {from, while, if, else, function, closure, method, constructor}, (h) an enumerated family of boundary shapes (deep nesting of every "
+        "corpus and of well-typed generated programs, (c) near-miss TYPE PAIRS: a random type T (primitives, open and fixed-shape lists, maps, optionals, function types, classes, aliases; depth <= 3), a type one structural edit away from it, and a value of the second supplied where the first is wanted (declaration, argument, re-assignment, return, `or` fallback, field, element, map value, comparison, index), (d) an enumerated import matrix (form x target file x imported names x context, compiled next to helper modules), (e) the COMPLETE single-edit neighbourhood of three hand-written well-typed programs that between them use every construct (values and operators; classes, closures and recursion; imports, exports and built-in methods): each token replaced by each of 70 words, each of 23 snippets inserted at each token boundary, each token deleted; 90 000 inputs, all of them in both tiers, (f) a composition matrix: 31 outer expression forms (calls of the function being defined among them) x 38 inner forms (nine of them diagnostics in their own right, four typed through an alias) x 11 statement forms (three of them the bounds / step of a from loop) x 9 places (module, function, function with a callback parameter, closure, method, constructor, closure in a method, if block, loop body), (g) 16 control / declaration statements (break, continue, return, import, class, type, export, modify, const, ?=, uses of self ...) inside every stack of up to three enclosing constructs out of {from, while, if, else, function, closure, method, constructor}, (h) an enumerated family of boundary shapes (deep nesting of every "
         "bracketing construct, long operator chains, huge literals, unterminated tokens, import of odd paths). Oracle: `mscript "
         "compile f.ms --quick` exits 0, or exits 1 with diagnostics; exit 101 / a signal / a reproducible watchdog hit is a "
         "violation. Non-trivial = the input gets past the parser (no syntax diagnostic); distinct by input text")
@@ -256,7 +256,9 @@ INNER = ["true", "nil", "self", "Self", "1", "1.5", "\"s\"", "[1]", "map[str, in
          "lst[-1]", "lst[1 - 2]", "lst[1.5]", "lst[B99999999999999999999]", "\"s\"[-1]", "[1, \"a\"][-1]", "k.zz", "idf()", "-\"s\"",
          # values whose type is spelled through an ALIAS, plain, optional and under a nested optional
          "ai", "oa", "mA[\"a\"]", "mA.remove(\"a\")"]
-STMT = ["print %s", "r: int = %s", "r = %s", "return %s", "if %s {\n}", "k.n = %s", "lst[0] = %s", "assert %s"]
+STMT = ["print %s", "r: int = %s", "r = %s", "return %s", "if %s {\n}", "k.n = %s", "lst[0] = %s", "assert %s",
+        # the shape as start bound, end bound and step of a from loop (in a function / closure / method the operand may be CAPTURED)
+        "from %s to 3 {\n}", "from 0 through %s, cq {\n}", "from 0 to 3 step %s {\n}"]
 COMP_PRE = ("class K {\n\tn: int\n\tconstructor(self) {\n\t\tself.n = 1\n\t}\n\tfn add(self, d: int) -> int {\n\t\treturn self.n + d\n\t}\n}\n"
             "v = 1\no: int? = nil\nk = K()\nlst: [int...] = [1, 2]\nidf = fn(a: int) -> int {\n\treturn a\n}\ntype I int\nai: I = 1\noa: I? = nil\nmA = map[str, I?] {\"a\": 1}\n")
 PLACES = {"module": "%s\n", "function": "w = fn() -> int {\n\t%s\n\treturn 0\n}\n", "closure": "w = fn() -> fn() -> int {\n\tc = 1\n\treturn fn() -> int {\n\t\t%s\n\t\treturn c\n\t}\n}\n",
